@@ -103,7 +103,6 @@ def _isarr(o):
 
 class SymR:
     __slots__ = ("e",)
-    __array_priority__ = 1000
 
     def __init__(self, e):
         self.e = e
@@ -232,7 +231,14 @@ class SymR:
     def __ne__(s, o):
         return s._cmp(o, lambda a, b: a != b)
 
-    __hash__ = None
+    def __hash__(s):
+        return id(s)
+
+    def __deepcopy__(s, memo):
+        return s
+
+    def __copy__(s):
+        return s
 
     def __bool__(s):
         return _ENG[0].decide(s.e != 0)
@@ -321,7 +327,6 @@ class SymI(SymR):
 
 class SymC:
     __slots__ = ("re", "im")
-    __array_priority__ = 1000
 
     def __init__(self, re, im):
         self.re, self.im = re, im
@@ -455,7 +460,6 @@ def _smul(a, b):
 class SymF:
     """IEEE-like value: NaN flag + real.  Comparisons with NaN are False."""
     __slots__ = ("nan", "val")
-    __array_priority__ = 1000
 
     def __init__(self, nan, val):
         self.nan, self.val = nan, val
